@@ -40,7 +40,7 @@ func (c06) Runs(tier string) int {
 
 func c06Opts(tier string) core.HistOpts {
 	o := core.HistOpts{Shapes: allShapes, PageMin: 1, PageMax: 8, BigPagePct: 3, MinBatches: 0, MaxBatches: 5, MaxOps: 40,
-		EmptyWrites: true, PendingClose: true, Profile: core.Benign, LargePct: 1, ManyPct: 1, ManyMax: 80, HugePct: 1, BoundaryPct: 2, GiantPct: 1}
+		EmptyWrites: true, PendingClose: true, Profile: core.Benign, LargePct: 1, ManyPct: 1, ManyMax: 80, HugePct: 1, BoundaryPct: 2, GiantPct: 1, MillionPer100k: 8}
 	if tier == "thorough" {
 		o.MaxOps = 120
 		o.MaxBatches = 6
@@ -141,6 +141,9 @@ func (p c06) Run(runseed uint64, tier string, acc *Acc) []*core.Violation {
 	}
 	if w.Giant {
 		acc.Inc("class/giant-page")
+	}
+	if w.Million {
+		acc.Inc("class/million-rows")
 	}
 	if w.Huge {
 		acc.Inc("class/huge-values")
